@@ -7,6 +7,7 @@ from hypothesis import strategies as st
 
 from han import aidon
 from vlib import gen_cosem as C
+from vlib.pool import PRELUDES, run_prelude
 from vlib.runner import Check, HypClause, Info, fail, guarded
 
 logging.disable(logging.CRITICAL)
@@ -14,6 +15,8 @@ logging.disable(logging.CRITICAL)
 
 def oracle(case) -> Info:
     layout, elements, apdu = case[0], [tuple(e) for e in case[1]], case[2]
+    prelude = case[3] if len(case) > 3 else "none"
+    run_prelude(prelude)
     body, exp = C.aidon_body(elements)
     d_body = guarded(aidon.decode_notification_body, body, what="aidon.decode_notification_body")
     m = C.dict_mismatch(d_body, exp)
@@ -31,7 +34,7 @@ def oracle(case) -> Info:
     bounds = {"u32": (0, 2**32 - 1, 2**31 - 1, 2**31), "u16": (0, 2**16 - 1, 2**15 - 1, 2**15), "i16": (2**15 - 1, -(2**15), -1)}
     boundary = any(e[3] in bounds[e[2]] or e[3] < 0 for e in regs)
     odd_scaler = any(e[4] not in (-1, 0, 1) for e in regs)
-    classes = [f"layout:{layout}"]
+    classes = [f"layout:{layout}", f"prelude:{prelude}"]
     if any(e[3] < 0 for e in regs):
         classes.append("negative-register")
     if odd_scaler:
@@ -41,7 +44,7 @@ def oracle(case) -> Info:
     return Info(nontrivial=bool(regs) and (boundary or odd_scaler), classes=tuple(classes), sample={"layout": layout, "body": body.hex()[:120], "n": len(elements)})
 
 
-case_st = st.tuples(C.aidon_list_st(), st.none() | st.tuples(C.dt_spec_st(), st.booleans())).map(lambda t: (t[0][0], t[0][1], t[1]))
+case_st = st.tuples(C.aidon_list_st(), st.none() | st.tuples(C.dt_spec_st(), st.booleans()), st.sampled_from(PRELUDES)).map(lambda t: (t[0][0], t[0][1], t[1], t[2]))
 
 
 def build() -> Check:
@@ -52,8 +55,9 @@ def build() -> Check:
             "Aidon lists built by a hand-written COSEM encoder: the documented layouts (NO list 1, list 2 one-/three-phase incl. IT net, "
             "list 3 one-/three-phase, SE list) and any duplicate-free subset/order of the known elements; registers over the full range of "
             "the transmitted type (u32/i16/u16, also types swapped between elements; boundaries 0, 1, +-max, sign boundary forced), scaler "
-            "-3..3 or -6..6, any unit of the enumeration, printable-ASCII strings, clock from the C10 strategy; APDU date-time null, tagged or "
-            "untagged. Oracle: decoded dictionary == expected (Fraction(register)*10^scaler: == the integer when integral, else == the "
+            "-3..3 or -6..6, any unit of the enumeration, arbitrary 7-bit ASCII strings (control characters and NUL included), clock from the C10 strategy; APDU date-time null, tagged or "
+            "untagged; before each decode a drawn prelude lets another decoder (Aidon/Kaifa/Kamstrup/P1/all) process genuine messages in the same "
+            "process. Oracle: decoded dictionary == expected (Fraction(register)*10^scaler: == the integer when integral, else == the "
             "correctly rounded double; texts verbatim; clock field-wise), exact key set, manufacturer 'Aidon', frame == body. Non-trivial "
             "= a register at a type boundary or negative, or a scaler outside {-1,0,1}. Distinct = case hash."
         ),
